@@ -4,7 +4,7 @@ import errno
 from dsim.core import Sim, HarnessError
 from dsim import seams
 from fakecass import codec as C
-from props.common import gen_strategy, quiet_logging, Violations, set_knob
+from props.common import gen_stalls, gen_strategy, quiet_logging, Violations, set_knob
 from worlds.conn import ConnWorld, HandshakePeer
 
 ID = 'C10'
@@ -49,7 +49,8 @@ def gen_plan(rng, tier):
         for r in reqs:
             if rng.random() < 0.3:
                 r['raises'] = True
-    return {
+    stalls = gen_stalls(rng, ['send_msg', 'send_msg', 'defunct', 'error_all_requests', 'close', 'process_msg'], 0.35)
+    plan_ = {
         'version': rng.choice([3, 4, 4]),
         'threshold': rng.choice([2, 100]),
         'nthreads': nthreads,
@@ -64,6 +65,8 @@ def gen_plan(rng, tier):
         'points': rng.choice([0, 1, 2, 4]),
         'time_jump_p': rng.choice([0, 0, 0.02, 0.2]),
     }
+    plan_.update(stalls)
+    return plan_
 
 
 def plan_ok(plan):
@@ -125,7 +128,7 @@ def run_plan(plan, seed, choices=None):
     sends = []           # (start_seq, ret_seq, rid, outcome type name)
     st = {'conn': None, 'threads_done': 0, 'fail_ret': None, 'fail_at': None, 'cp': None, 'cp_seen': [], 'cp_done': False,
           'outstanding_at_failure': None}
-    if plan['line_p'] or plan['points']:
+    if plan['line_p'] or plan['points'] or plan.get('focus_stall'):
         sim.enable_line_preemption([Conn.send_msg, Conn.defunct, Conn.error_all_requests, Conn.process_msg,
                                     w.conn_class.close, w.conn_class.push], p=plan['line_p'], points=plan['points'],
                                    est_lines=40 * (len(plan['requests']) + 2))
